@@ -13,6 +13,7 @@ import (
 	"sort"
 	"strconv"
 	"strings"
+	"time"
 
 	"github.com/uber-go/gopatch/patch"
 )
@@ -432,6 +433,8 @@ func runEngineCase(c engineCase) (res engineResult) {
 	return res
 }
 
+const engineCaseLimit = 60 * time.Second
+
 func init() {
 	handlers["engine"] = func(req json.RawMessage) (any, error) {
 		var in struct {
@@ -442,12 +445,24 @@ func init() {
 			return nil, err
 		}
 		out := make([]engineResult, len(in.Cases))
+		// a case that does not come back within the limit is reported as such (its goroutine is abandoned; the
+		// process exits when all results are in)
+		guarded := func(i int) {
+			done := make(chan engineResult, 1)
+			go func() { done <- runEngineCase(in.Cases[i]) }()
+			select {
+			case r := <-done:
+				out[i] = r
+			case <-time.After(engineCaseLimit):
+				out[i] = engineResult{Panic: fmt.Sprintf("TIMEOUT: no result within %v (patch.Parse, the step-by-step run or File.Apply does not return)", engineCaseLimit)}
+			}
+		}
 		if in.Serial {
 			for i := range in.Cases {
-				out[i] = runEngineCase(in.Cases[i])
+				guarded(i)
 			}
 		} else {
-			parallel(len(in.Cases), func(i int) { out[i] = runEngineCase(in.Cases[i]) })
+			parallel(len(in.Cases), guarded)
 		}
 		return map[string]any{"results": out}, nil
 	}
